@@ -3,7 +3,7 @@
 From Coq Require Import NArith ZArith List Bool.
 Require Import Board Stack Rules Move Refine RefinePlace RefinePlace2 RefinePlace3 Slide1 Slide2 Slide3 Slide4 Slide5 Slide6 Slide7 Slide8 MoveRefines.
 Require Import HashInv GameOver Alloc Tps Generated.Consts.
-Require Import Preserve1 Preserve2 PreserveExt Preserve3 Preserve4 Preserve5 Preserve6 Reach1 PreserveEx.
+Require Import Preserve1 Preserve2 PreserveExt Preserve3 Preserve4 Preserve5 Preserve6 Reach1 HashMove1 PreserveEx PreserveOver64.
 Import ListNotations.
 
 (* Vocabulary (definitions in Preserve1.v, Preserve5.v, Preserve6.v, Reach1.v):
@@ -61,6 +61,19 @@ Print Assumptions C01_move_exact.
 Theorem C01_tall_ok_fits64 : forall p m, pos_ok p -> tall_ok p -> mT m <> 1%N -> fits64 p m.
 Proof. exact tall_ok_fits64. Qed.
 Print Assumptions C01_tall_ok_fits64.
+
+(* The height hypothesis cannot be dropped: from a position satisfying the invariant (a 63-high stack on 3x3) a legal
+   slide raises the stack to 66; the model - like the Go code, which has no check - succeeds, the rules successor s
+   has a black piece at the bottom of that stack and the result shows a white one (the bit fell off the 64-bit word);
+   the stack lengths and the hash invariant are still right. *)
+Theorem C01_over64_refuted : exists p m p',
+  pos_ok p /\ mT m <> 1%N /\ mv p m = Ok p' /\
+  (exists s, rules_move (abs p) (raw m) = Some s /\ s <> abs p' /\ same_shape s p' /\
+             nth 65 (nth 0 (sq s) []) (Rules.White, Flat) = (Rules.Black, Flat) /\
+             nth 65 (nth 0 (sq (abs p')) []) (Rules.Black, Flat) = (Rules.White, Flat)) /\
+  ~ heights64 p' /\ ~ fits64 p m /\ hash_good p'.
+Proof. exact over64_refuted. Qed.
+Print Assumptions C01_over64_refuted.
 
 (* PRESERVATION with at most 64 pieces in the game: no height hypothesis at all. *)
 Theorem C01_move_preserves_small : forall p m p', pos_ok p -> (total p <= 64)%N -> mT m <> 1%N -> mv p m = Ok p' ->
